@@ -201,9 +201,18 @@ pub fn scenario_r(seed: u64) -> MadeR {
     if ok {
         w.run_until(t0 + at);
         let idx = w.trace.entries.len();
-        w.inject_msg(h, if_index, scen::peer4(77), &build(&kind, &inst, &host_name));
+        // the other host may spell the name in another letter case: it is the same name
+        let other_case = rng.chance(1, 6);
+        let respell = |n: &Name| {
+            let mut n = n.clone();
+            if other_case {
+                n[0] = n[0].iter().map(|b| if b.is_ascii_lowercase() { b.to_ascii_uppercase() } else { b.to_ascii_lowercase() }).collect();
+            }
+            n
+        };
+        w.inject_msg(h, if_index, scen::peer4(77), &build(&kind, &respell(&inst), &respell(&host_name)));
         conflicts.push((idx, kind.clone(), inst.clone(), host_name.clone()));
-        desc.push_str(&format!(" @{at}:conflict-{kind:?}"));
+        desc.push_str(&format!(" @{at}:conflict-{kind:?}{}", if other_case { "-in-other-letter-case" } else { "" }));
         // sometimes the new name is contested too
         if rng.chance(1, 4) {
             // the names being probed now, read off the daemon's latest probe
@@ -646,6 +655,251 @@ pub fn run_r(seed: u64, l: &mut Local) {
     }
 }
 
+// ---------------------------------------------------------------------------
+// Part T: the simultaneous-probe comparison
+
+/// What one prober proposes for the contested names.
+#[derive(Clone, Debug, PartialEq)]
+pub struct Claim {
+    pub port: u16,
+    pub txt: Vec<u8>,
+    pub host: String,
+    pub v4: Vec<[u8; 4]>,
+    pub v6: Vec<[u8; 16]>,
+}
+
+const T_INST: &str = "contested";
+const T_TY: &str = "_t._udp.local.";
+
+impl Claim {
+    fn records_for(&self, which: Which) -> Vec<wire::Record> {
+        let inst = scen::wire_name(&format!("{T_INST}.{T_TY}"));
+        let host = scen::wire_name(&self.host);
+        let mut v = match which {
+            Which::Instance => vec![wire::rec(&inst, wire::T_TXT, 1, 4500, RData::Txt(self.txt.clone())), wire::srv(&inst, 120, self.port, &host)],
+            Which::Host => {
+                let mut v: Vec<wire::Record> = self.v4.iter().map(|a| wire::a(&host, 120, *a)).collect();
+                v.extend(self.v6.iter().map(|a| wire::aaaa(&host, 120, *a)));
+                v
+            }
+        };
+        // as a prober sends them: by class, type, then rdata
+        v.sort_by(|a, b| (a.class_only(), a.rtype, rdata_bytes(&a.rdata)).cmp(&(b.class_only(), b.rtype, rdata_bytes(&b.rdata))));
+        v
+    }
+}
+
+#[derive(Clone, Copy, Debug, PartialEq)]
+pub enum Which {
+    Instance,
+    Host,
+}
+
+/// RDATA as it is on the wire, names uncompressed.
+fn rdata_bytes(r: &RData) -> Vec<u8> {
+    let name_bytes = |n: &Name| {
+        let mut v = Vec::new();
+        for l in n {
+            v.push(l.len() as u8);
+            v.extend(l);
+        }
+        v.push(0);
+        v
+    };
+    match r {
+        RData::A(a) => a.to_vec(),
+        RData::Aaaa(a) => a.to_vec(),
+        RData::Ptr(n) => name_bytes(n),
+        RData::Srv { priority, weight, port, target } => {
+            let mut v = Vec::new();
+            v.extend(priority.to_be_bytes());
+            v.extend(weight.to_be_bytes());
+            v.extend(port.to_be_bytes());
+            v.extend(name_bytes(target));
+            v
+        }
+        RData::Txt(t) => t.clone(),
+        RData::Raw(t) => t.clone(),
+        _ => Vec::new(),
+    }
+}
+
+/// The statement's order on record sets: class, then type, then RDATA, then number of records.
+fn compare_sets(x: &[wire::Record], y: &[wire::Record]) -> std::cmp::Ordering {
+    for (a, b) in x.iter().zip(y.iter()) {
+        let o = (a.class_only(), a.rtype, rdata_bytes(&a.rdata)).cmp(&(b.class_only(), b.rtype, rdata_bytes(&b.rdata)));
+        if o != std::cmp::Ordering::Equal {
+            return o;
+        }
+    }
+    x.len().cmp(&y.len())
+}
+
+#[derive(Clone, Copy, Debug, PartialEq)]
+pub enum Verdict {
+    Yields,
+    Ignores,
+    Unclear,
+}
+
+pub struct ShownRun {
+    pub verdict: Verdict,
+    pub probes_after: Vec<u64>,
+    pub t_shown: u64,
+    pub announced_at: Option<u64>,
+    pub trace: Vec<String>,
+    pub died: bool,
+}
+
+/// A daemon registers `mine` and, `at` ms into probing, is shown a probe carrying `theirs` for `which` name.
+pub fn shown(seed: u64, mine: &Claim, theirs: &Claim, which: Which, at: u64, jitter: u64, hostile_order: bool, other_case: bool) -> ShownRun {
+    let mut w = World::new(seed);
+    w.set_stepping(Stepping::Lazy);
+    let ifs = if mine.v6.is_empty() { scen::single_v4() } else { scen::single_dual() };
+    let h = w.add_host_with(ifs, |g| g.jitter = [jitter, jitter].into_iter().collect());
+    w.set_ip_check_interval(h, 3600);
+    let t0 = w.now();
+    let mut addrs: Vec<IpAddr> = mine.v4.iter().map(|a| IpAddr::from(*a)).collect();
+    addrs.extend(mine.v6.iter().map(|a| IpAddr::from(*a)));
+    let mut reg = World::reg_info(T_TY, T_INST, &mine.host, &addrs, mine.port, &[]);
+    reg.txt = Vec::new();
+    // TXT bytes are set through one key=value item whose encoding is exactly `txt`
+    let items = wire::txt_items(&mine.txt, false);
+    reg.txt = items.iter().map(|i| (String::from_utf8_lossy(&i.key).to_string(), i.val.clone())).collect();
+    w.register(h, reg);
+    w.run_until(t0 + jitter + at);
+    let name = match which {
+        Which::Instance => scen::wire_name(&format!("{T_INST}.{T_TY}")),
+        Which::Host => scen::wire_name(&mine.host),
+    };
+    let mut shown_name = name.clone();
+    if other_case {
+        shown_name[0] = shown_name[0].to_ascii_uppercase();
+    }
+    let mut q = Message::query();
+    q.questions.push(wire::question(&shown_name, wire::T_ANY));
+    let mut auth = theirs.records_for(which);
+    for r in auth.iter_mut() {
+        r.name = shown_name.clone();
+    }
+    if hostile_order {
+        auth.reverse();
+    }
+    q.authorities = auth;
+    let idx = w.trace.entries.len();
+    w.inject_msg(h, 2, scen::peer4(77), &q);
+    let t_shown = w.now();
+    w.run_until(t_shown + 4000);
+    let txs = scen::tx_msgs(&w.trace, 0);
+    let probes_after: Vec<u64> = txs
+        .iter()
+        .filter(|tx| tx.idx > idx && tx.v4 && tx.msg.is_query() && scen::has_question(tx.msg, &name, wire::T_ANY) && tx.msg.authorities.iter().any(|r| wire::names_eq_nocase(&r.name, &name)))
+        .map(|tx| tx.t - t_shown)
+        .collect();
+    let announced_at = txs.iter().find(|tx| tx.idx > idx && tx.v4 && tx.msg.is_response() && tx.multicast && tx.msg.answers.iter().any(|r| r.rtype == wire::T_SRV)).map(|tx| tx.t - t_shown);
+    // on schedule: the next probe comes 250 ms after the previous one, i.e. within 250 ms of the shown probe
+    let verdict = match probes_after.first() {
+        Some(d) if *d <= 250 => Verdict::Ignores,
+        Some(d) if *d >= 1000 && *d <= 1001 => Verdict::Yields,
+        None if announced_at.is_some_and(|a| a <= 250) => Verdict::Ignores, // shown after the third probe
+        _ => Verdict::Unclear,
+    };
+    let died = w.trace.deaths().any(|d| matches!(d.ev, Ev::Death { panicked: true, .. }));
+    let trace = w.trace.render_tail(40);
+    ShownRun { verdict, probes_after, t_shown, announced_at, trace, died }
+}
+
+fn random_claim(rng: &mut Rng, base: &Claim) -> Claim {
+    let mut c = base.clone();
+    match rng.below(8) {
+        0 => c.port = *rng.pick(&[1u16, 79, 80, 81, 255, 256, 0x7fff, 0x8000, 0xffff]),
+        1 => c.txt = wire::txt_encode(&[(b"k".to_vec(), Some(vec![*rng.pick(&[0u8, 1, 0x41, 0x61, 0x7f, 0x80, 0xff])]))]),
+        2 => c.txt = wire::txt_encode(&[(b"k".to_vec(), Some(b"v".to_vec())), (b"x".to_vec(), None)]),
+        3 => c.v4 = vec![[10, 0, 0, *rng.pick(&[1u8, 4, 5, 6, 127, 128, 255])]],
+        4 => c.v4 = vec![[10, 0, 0, 5], [10, 0, 0, *rng.pick(&[1u8, 6, 200])]],
+        5 => c.v6 = vec!["fe80::5".parse::<std::net::Ipv6Addr>().unwrap().octets()],
+        6 => c.v6 = vec![format!("fe80::{:x}", 1 + rng.below(300)).parse::<std::net::Ipv6Addr>().unwrap().octets()],
+        _ => c.txt = wire::txt_encode(&[(b"k".to_vec(), Some(b"va".to_vec()))]),
+    }
+    c
+}
+
+pub fn run_t(seed: u64, l: &mut Local) {
+    let mut rng = Rng::new(seed);
+    let base = Claim { port: 80, txt: wire::txt_encode(&[(b"k".to_vec(), Some(b"v".to_vec()))]), host: "contested-host.local.".into(), v4: vec![[10, 0, 0, 5]], v6: vec![] };
+    let x = if rng.chance(1, 2) { random_claim(&mut rng, &base) } else { base.clone() };
+    let from_x = rng.chance(1, 3);
+    let y = random_claim(&mut rng, &if from_x { x.clone() } else { base.clone() });
+    let which = if x.port != y.port || x.txt != y.txt { Which::Instance } else { Which::Host };
+    let jitter = *rng.pick(&[0u64, 7, 130, 249]);
+    // between the first and the second probe, the second and the third, or after the third
+    let at = *rng.pick(&[1u64, 100, 249, 251, 400, 499, 501, 700, 749]);
+    let hostile_order = rng.chance(1, 6);
+    let other_case = !hostile_order && rng.chance(1, 8);
+    let variant = if hostile_order { "/authority-in-reverse-order" } else if other_case { "/name-in-other-letter-case" } else { "" };
+    l.evaluations += 1;
+    let xs = x.records_for(which);
+    let ys = y.records_for(which);
+    l.distinct.insert(util::fnv_str(&format!("T|{:?}|{:?}|{which:?}|{at}|{variant}", xs, ys)));
+    let a = shown(seed, &x, &y, which, at, jitter, hostile_order, other_case);
+    let b = shown(seed ^ 1, &y, &x, which, at, jitter, hostile_order, other_case);
+    if a.died || b.died {
+        l.inconclusive.push(format!("daemon died in a C08 tiebreak scenario (seed {seed})"));
+        return;
+    }
+    let desc = format!("{which:?} name; X={:?} Y={:?}; shown {at} ms after the first probe (jitter {jitter}){variant}", xs.iter().map(|r| format!("t{} {}", r.rtype, render_rdata(&r.rdata))).collect::<Vec<_>>(), ys.iter().map(|r| format!("t{} {}", r.rtype, render_rdata(&r.rdata))).collect::<Vec<_>>());
+    let wit = || json!({"scenario": desc, "daemon_with_X_shown_Y": {"verdict": format!("{:?}", a.verdict), "probes_after_ms": a.probes_after, "announced_after_ms": a.announced_at, "trace": a.trace},
+                        "daemon_with_Y_shown_X": {"verdict": format!("{:?}", b.verdict), "probes_after_ms": b.probes_after, "announced_after_ms": b.announced_at, "trace": b.trace}});
+    let step = if at < 250 { "after-first-probe" } else if at < 500 { "after-second-probe" } else { "after-third-probe" };
+    // N2: a verdict is one of the two: on schedule, or exactly one second later followed by three probes
+    for (r, side) in [(&a, "X"), (&b, "Y")] {
+        l.act("N2");
+        if r.verdict == Verdict::Unclear {
+            l.violate(
+                Violation::new("N2", format!("N2/neither-on-schedule-nor-one-second-later/{step}{variant}"), format!("after being shown the other probe the daemon holding {side} probed next after {:?} ms: neither on schedule (<= 250) nor after the one-second wait", r.probes_after.first()))
+                    .with(wit()),
+            );
+            return;
+        }
+        if r.verdict == Verdict::Yields {
+            let p = &r.probes_after;
+            let ok = p.len() >= 3 && p[1] - p[0] >= 250 && p[2] - p[1] >= 250 && r.announced_at.is_some_and(|t| t >= p[2] + 250);
+            if !ok {
+                l.violate(
+                    Violation::new("N2", format!("N2/no-three-probes-after-the-wait/{step}{variant}"), format!("after yielding the daemon holding {side} probed at {:?} ms and announced at {:?} ms", p, r.announced_at))
+                        .with(wit()),
+                );
+                return;
+            }
+        }
+    }
+    // N3: opposite verdicts, unless the data are the same
+    l.act("N3");
+    let same = xs == ys;
+    if same {
+        if a.verdict == Verdict::Yields || b.verdict == Verdict::Yields {
+            l.violate(Violation::new("N3", format!("N3/yields-to-identical-data/{step}{variant}"), "a prober with identical data is not a conflict, yet the daemon waited").with(wit()));
+        }
+        return;
+    }
+    if a.verdict == b.verdict {
+        l.violate(
+            Violation::new("N3", format!("N3/both-{}/{which:?}/{step}{variant}", if a.verdict == Verdict::Yields { "yield" } else { "ignore" }).to_lowercase(), format!("both sides reach the same verdict ({:?}) for different data", a.verdict))
+                .with(wit()),
+        );
+        return;
+    }
+    // N3b: the side with the earlier data yields
+    l.act("N3b");
+    let x_earlier = compare_sets(&xs, &ys) == std::cmp::Ordering::Less;
+    if (a.verdict == Verdict::Yields) != x_earlier {
+        l.violate(
+            Violation::new("N3", format!("N3b/later-data-yields/{which:?}/{step}{variant}").to_lowercase(), "the side whose data sort later (class, type, RDATA bytes, then count) is the one that yields".to_string())
+                .with(wit()),
+        );
+    }
+}
+
 pub fn run(report: &Report, tier: &Tier) {
     report.set_rule(
         "part R: one daemon (1..2 interfaces, v4/v6), a service with instance names {plain, upper case, existing ' (N)' up to 2^32-1, inner '(N)', dots, \
@@ -653,12 +907,13 @@ pub fn run(report: &Report, tier: &Tier) {
          AAAA / SRV+A response injected at every millisecond of the probing period (and on the probe instants), in one run of four the new name contested \
          again; then 12..21 questions (PTR, SRV, TXT, ANY, A, meta) for the old and the new names, then unregister or shutdown; distinct by (names, conflict kind)",
     );
-    for r in ["N1", "N1-renamed", "N1-event", "N1-probed", "N4-answers", "N5"] {
+    for r in ["N1", "N1-renamed", "N1-event", "N1-probed", "N4-answers", "N5", "N2", "N3", "N3b"] {
         report.floor(r, 30);
     }
     let seed = report.seed;
-    let n: u64 = if tier.thorough { 60_000 } else { 2_400 };
-    run_parallel(report, n, threads(), tier.budget_s, |i, l| {
-        run_r(util::mix(seed, 0xC08_0000 + i), l);
+    let n: u64 = if tier.thorough { 100_000 } else { 4_000 };
+    run_parallel(report, n, threads(), tier.budget_s, |i, l| match i % 2 {
+        0 => run_r(util::mix(seed, 0xC08_0000 + i), l),
+        _ => run_t(util::mix(seed, 0xC08_0000 + i), l),
     });
 }
